@@ -987,6 +987,9 @@ func (db *DB) GetProperty(name string) (value string, err error) {
 		n, _ := fmt.Sscanf(p[len(numFilesPrefix):], "%d%s", &level, &rest)
 		if n != 1 {
 			err = ErrNotFound
+		} else if level >= uint(len(v.levels)) {
+			// Also covers numbers that do not fit a non-negative int.
+			value = "0"
 		} else {
 			value = fmt.Sprint(v.tLen(int(level)))
 		}
